@@ -32,6 +32,9 @@ SPEC = {
  "C08": dict(pkg="astria-merkle", n="about 40", about="`crates/astria-merkle/src/lib.rs` and `src/audit.rs`",
    specific="a particular tree size (non power of two, one less / one more than a power of two), a particular leaf index (last leaf, a leaf on the right spine), a proof for a different tree size",
    drive="The tests in `src/tests.rs` and `src/audit.rs` show how to build trees and proofs."),
+ "C02": dict(pkg="astria-sequencer", n="roughly 518", about="`crates/astria-sequencer/src/checked_actions/` (transfer.rs, bridge/*.rs, ics20_withdrawal.rs, bridge_sudo_change.rs, init_bridge_account.rs, sudo_address_change.rs, fee_change.rs, fee_asset_change.rs, validator_update.rs, ibc_relayer_change.rs, ibc_sudo_change.rs, currency_pairs_change.rs, markets_change.rs) and the signature check in `crates/astria-core/src/protocol/transaction/v1/mod.rs`",
+   specific="a particular signer role (a former holder of a privilege, a bridge account signing for itself, the new holder in the same block), a privilege change earlier in the same block, a check present at construction but missing at execution (or vice versa) for one action type",
+   drive="The crate's `crate::test_utils` module (`Fixture`, `ChainInitializer`, `BridgeInitializer`, `CheckedTxBuilder`, keys ALICE/BOB/CAROL/SUDO, `nria()`, ...) and the existing tests under `src/app/tests_app/`, `src/checked_actions/**` show how to drive the code."),
  "C03": dict(pkg="astria-sequencer", n="roughly 518", about="`crates/astria-sequencer/src/checked_transaction/mod.rs`, `src/checked_actions/*.rs`, `src/app/mod.rs` (transaction execution)",
    specific="a transaction whose k-th action (k>1) fails after earlier actions have changed state, a particular action type whose execute writes before a check that can still fail, a replay of the same bytes, a nonce gap",
    drive="`crate::test_utils` (`Fixture`, `CheckedTxBuilder`, keys) and the tests in `src/checked_transaction/` and `src/app/tests_app/` show how to drive it."),
